@@ -224,7 +224,7 @@ type VP9Params struct {
 	ColorRange    bool
 }
 
-var vp9Sets = []VP9Params{{1920, 1080, false}, {1280, 720, false}, {640, 360, true}, {1920, 1080, true}}
+var vp9Sets = []VP9Params{{1920, 1080, false}, {1280, 720, false}, {640, 360, true}, {1920, 1080, true}, {1920, 800, false}, {1280, 1080, false}, {1280, 800, false}}
 
 type bitWriter struct {
 	buf  []byte
